@@ -481,6 +481,18 @@ class Sym:
         # a constant of this crate whose value the driver could not print (`const DNS: Self = Self(Uuid::NAMESPACE_DNS)`): its
         # initialiser is evaluated like a function body without parameters (constants are pure)
         cb = self.fx.bodies.get(n["path"])
+        if cb is None and self.tsubst:
+            # `Self::LIMIT` in a provided trait method being inlined for a concrete Self: the impl's constant
+            self_ty = self.subst_ty("Self")
+            parts = n["path"].split("::")
+            if self_ty != "Self" and len(parts) >= 3:
+                cname, tname = parts[-1], parts[-2]
+                norm_ = lambda t_: re.sub(r"<.*$", "", re.sub(r"^&('\w+ )?(mut )?", "", t_.strip())).split("::")[-1]
+                hits = [q for q in self.fx.bodies if q.endswith(">::" + cname) and re.match(r"^\w+::<(.+) as (.+)>::\w+$", q)
+                        and norm_(re.match(r"^\w+::<(.+) as (.+)>::\w+$", q).group(1)) == norm_(self_ty)
+                        and re.match(r"^\w+::<(.+) as (.+)>::\w+$", q).group(2).split("<")[0].split("::")[-1] == tname]
+                if len(hits) == 1:
+                    cb = self.fx.bodies[hits[0]]
         if cb is not None and str(cb.get("kind", "")).startswith(("Const", "AssocConst")) and cb["krate"] in self.krates \
                 and cb["path"] not in self.stack and len(self.stack) <= self.inline_depth + 2:
             self.stack.append(cb["path"])
